@@ -59,29 +59,39 @@ static std::string seq_names(const std::vector<Step>& s) {
     for (size_t i = 0; i < s.size(); i++) o += (i ? " | " : "") + std::string(i ? JNAME[s[i].joint] : "start") + ":" + KNAME[s[i].kind];
     return o;
 }
+// Coordinates of section si are handed to gdstk RELATIVE to the current end point (relative = true) or absolute,
+// alternating with the position and the offset kind, so that every kind that has the flag is built both ways in
+// every position (the path starts at (1,-2), never at the origin).  arc/turn have no such flag.
+static bool rel_of(const Case& c, size_t si) { return ((si + (size_t)c.ok) & 1) == 0; }
+static std::string rel_str(const Case& c) {
+    std::string o;
+    for (size_t i = 0; i < c.seq.size(); i++) o += rel_of(c, i) ? "r" : "a";
+    return o;
+}
 static std::string replay_of(const Case& c) {
     std::string r = fmt("seq=%s wk=%d ok=%d nel=%d end=%d tol=%d tr=%d", seq_str(c.seq).c_str(), c.wk, c.ok, c.nel, c.end, c.tol, c.tr);
     if (c.eu >= 0) r += fmt(" eu=%d ev=%d", c.eu, c.ev);
     return r;
 }
 static std::string case_json(const Case& c) {
-    return jobj({{"sections", jstr(seq_names(c.seq))}, {"width", jstr(WNAME[c.wk])}, {"offset", jstr(ONAME[c.ok])}, {"elements", jint(c.nel)},
+    return jobj({{"sections", jstr(seq_names(c.seq))}, {"coordinates_relative_or_absolute", jstr(rel_str(c))}, {"width", jstr(WNAME[c.wk])}, {"offset", jstr(ONAME[c.ok])}, {"elements", jint(c.nel)},
                  {"end", jstr(c.eu >= 0 ? fmt("extended(start=%s,end=%s)", XNAME[c.eu], XNAME[c.ev]) : std::string(ENAME[c.end]))}, {"tolerance", jnum(TOLS[c.tol])}, {"transform", jstr(TNAME[c.tr])}, {"max_evals", jint(MAX_EVALS)}});
 }
 static JFields tags_of(const Case& c, int el, int sec_kind) {
     JFields t = {{"sections", jstr(seq_names(c.seq))}, {"nsections", jint((int64_t)c.seq.size())}, {"width", jstr(WNAME[c.wk])}, {"offset", jstr(ONAME[c.ok])},
                  {"elements", jint(c.nel)}, {"element", jint(el)}, {"end", jstr(ENAME[c.end])}, {"tolerance", jnum(TOLS[c.tol])}, {"transform", jstr(TNAME[c.tr])}};
     if (sec_kind >= 0) t.push_back({"section_kind", jstr(KNAME[sec_kind])});
+    t.push_back({"coordinates", jstr(rel_str(c))});
     if (c.eu >= 0) { t.push_back({"ext_start", jstr(XNAME[c.eu])}); t.push_back({"ext_end", jstr(XNAME[c.ev])}); }
     return t;
 }
 
 // ------------------------------------------------------------------ user functions handed to gdstk
-struct CircData { double R, h; };
+struct CircData { double R, h, ox, oy; };  // (ox, oy): origin added by the function itself (absolute variant)
 static Vec2 circ_f(double u, void* d) {
     CircData* c = (CircData*)d;
     double a = 0.5 * M_PI * u, x = c->R * sin(a), y = c->R * (1 - cos(a));
-    return Vec2{x * cos(c->h) - y * sin(c->h), x * sin(c->h) + y * cos(c->h)};
+    return Vec2{c->ox + x * cos(c->h) - y * sin(c->h), c->oy + x * sin(c->h) + y * cos(c->h)};
 }
 static Vec2 circ_g(double u, void* d) {
     CircData* c = (CircData*)d;
@@ -160,10 +170,12 @@ static void build(const Case& c, Built& b) {
         const Interpolation* W = pass_null ? NULL : wi;
         const Interpolation* O = pass_null ? NULL : oi;
         std::vector<OSec> added;
+        const bool rel = rel_of(c, si);
+        auto A = [&](V q) { V d = rel ? q - pen : q; return Vec2{d.x, d.y}; };  // absolute point -> argument
         switch (k) {
             case K_SEG: {
                 V e = G(6, 0);
-                p.segment(Vec2{e.x, e.y}, W, O, false);
+                p.segment(A(e), W, O, rel);
                 added.push_back(OSec::segment(pen, e));
             } break;
             case K_ARCC: {
@@ -204,35 +216,35 @@ static void build(const Case& c, Built& b) {
             } break;
             case K_QUAD: {
                 V r1 = rot(V{4, 0}, h), r2 = rot(V{8, 3}, h);
-                p.quadratic(Vec2{r1.x, r1.y}, Vec2{r2.x, r2.y}, W, O, true);
+                p.quadratic(A(pen + r1), A(pen + r2), W, O, rel);
                 added.push_back(OSec::bezier({pen, pen + r1, pen + r2}));
             } break;
             case K_CUBIC: {
                 V a = G(3, 0), q = G(6, 1), e = G(9, 3);
-                p.cubic(Vec2{a.x, a.y}, Vec2{q.x, q.y}, Vec2{e.x, e.y}, W, O, false);
+                p.cubic(A(a), A(q), A(e), W, O, rel);
                 added.push_back(OSec::bezier({pen, a, q, e}));
             } break;
             case K_QSM: {
                 V e = G(9, 2);
-                p.quadratic_smooth(Vec2{e.x, e.y}, W, O, false);
+                p.quadratic_smooth(A(e), W, O, rel);
                 added.push_back(OSec::bezier({pen, pen + prevder * 0.5, e}));  // first control = continuation of the previous tangent
             } break;
             case K_CSM: {
                 V r2 = rot(V{6, 1}, h), r3 = rot(V{9, 3}, h);
-                p.cubic_smooth(Vec2{r2.x, r2.y}, Vec2{r3.x, r3.y}, W, O, true);
+                p.cubic_smooth(A(pen + r2), A(pen + r3), W, O, rel);
                 added.push_back(OSec::bezier({pen, pen + prevder * (1.0 / 3), pen + r2, pen + r3}));
             } break;
             case K_BEZ: {
                 V c1 = G(2, 0), c2 = G(5, 0), c3 = G(7, 1.5), c4 = G(9, 4);
-                Vec2 pts[4] = {{c1.x, c1.y}, {c2.x, c2.y}, {c3.x, c3.y}, {c4.x, c4.y}};
+                Vec2 pts[4] = {A(c1), A(c2), A(c3), A(c4)};
                 Array<Vec2> arr = {};
                 arr.items = pts; arr.count = 4; arr.capacity = 0;
-                p.bezier(arr, W, O, false);
+                p.bezier(arr, W, O, rel);  // general Bezier of degree 4 (bezier() builds the same generic section for any count)
                 added.push_back(OSec::bezier({pen, c1, c2, c3, c4}));
             } break;
             case K_INTERP: {
                 V q1 = G(5, 1.5), q2 = G(10, 0);
-                Vec2 pts[2] = {{q1.x, q1.y}, {q2.x, q2.y}};
+                Vec2 pts[2] = {A(q1), A(q2)};
                 Array<Vec2> arr = {};
                 arr.items = pts; arr.count = 2; arr.capacity = 0;
                 // the start angle is given within pi of the chord direction (hobby_interpolation does not reduce
@@ -242,7 +254,7 @@ static void build(const Case& c, Built& b) {
                 bool cons[3] = {true, false, false};
                 Vec2 tens[3] = {{1, 1}, {1, 1}, {1, 1}};
                 uint64_t before = p.subpath_array.count;
-                p.interpolation(arr, angles, cons, tens, 1, 1, false, NULL, NULL, false);
+                p.interpolation(arr, angles, cons, tens, 1, 1, false, NULL, NULL, rel);
                 // The Hobby control points are an INPUT of the outline stage (their derivation is C15's
                 // subject): read them back, but check what an interpolation promises.
                 if (p.subpath_array.count != before + 2) { b.construct_error = "interpolation(2 points) did not add 2 sections"; return; }
@@ -252,7 +264,8 @@ static void build(const Case& c, Built& b) {
                     if (sp.type != SubPathType::Bezier3) { b.construct_error = "interpolation section is not a cubic"; return; }
                     OSec s = OSec::bezier({V{sp.p0.x, sp.p0.y}, V{sp.p1.x, sp.p1.y}, V{sp.p2.x, sp.p2.y}, V{sp.p3.x, sp.p3.y}});
                     double t0 = (j == 0 && chain_approx) ? 2e-3 : 1e-9;  // the start is the path's current end point
-                    if (len(s.ctrl[0] - via[j]) > t0 || len(s.ctrl[3] - via[j + 1]) > 1e-9) b.construct_error = "interpolation does not pass through the given points";
+                    double t3 = (rel && chain_approx) ? 2e-3 : 1e-9;     // relative points move with it
+                    if (len(s.ctrl[0] - via[j]) > t0 || len(s.ctrl[3] - via[j + 1]) > t3) b.construct_error = "interpolation does not pass through the given points";
                     added.push_back(s);
                 }
                 V d0 = added[0].der(0), d1 = added[0].der(1), d2 = added[1].der(0);
@@ -261,8 +274,8 @@ static void build(const Case& c, Built& b) {
                 if (!b.construct_error.empty()) return;
             } break;
             case K_PARG: case K_PARN: {
-                b.circ.push_back(CircData{5, h});
-                p.parametric(circ_f, &b.circ.back(), k == K_PARG ? circ_g : NULL, k == K_PARG ? &b.circ.back() : NULL, W, O, true);
+                b.circ.push_back(CircData{5, h, rel ? 0.0 : pen.x, rel ? 0.0 : pen.y});
+                p.parametric(circ_f, &b.circ.back(), k == K_PARG ? circ_g : NULL, k == K_PARG ? &b.circ.back() : NULL, W, O, rel);
                 added.push_back(OSec::circle(pen, 5, h));
             } break;
         }
